@@ -11,8 +11,9 @@ import os
 import subprocess
 import sys
 
-WT = "/tmp/scratch/matrix_wt"
-EV = "/tmp/scratch/matrix_ev"
+HOME = os.environ.get("KV_VERIF_HOME", "/verif")  # a snapshot copy of /verif may be used so that edits do not disturb a long run
+WT = os.environ.get("KV_MATRIX_WT", "/tmp/scratch/matrix_wt")
+EV = WT + "_ev"
 
 
 def sh(cmd, cwd=None):
@@ -21,7 +22,7 @@ def sh(cmd, cwd=None):
 
 
 def run_check(pid):
-    rc, out = sh(f"./check {pid} --root {WT} --evidence-dir {EV}/{pid} --no-selftest", cwd="/verif")
+    rc, out = sh(f"./check {pid} --root {WT} --evidence-dir {EV}/{pid} --no-selftest", cwd=HOME)
     lines = [l for l in out.splitlines() if l.startswith(f"[{pid}] rule ") or l.startswith("UNDECIDED")]
     return pid, rc, lines[:4]
 
@@ -34,15 +35,15 @@ def main():
             print(o)
             return 2
     head = sh("git -C /repo rev-parse HEAD")[1].strip()
-    pids = [c["property_id"] for c in json.load(open("/verif/MANIFEST.json"))["checks"]]
-    names = sys.argv[1:] or sorted(f[:-5] for f in os.listdir("/verif/twins") if f.endswith(".diff"))
+    pids = [c["property_id"] for c in json.load(open(f"{HOME}/MANIFEST.json"))["checks"]]
+    names = sys.argv[1:] or sorted(f[:-5] for f in os.listdir(f"{HOME}/twins") if f.endswith(".diff"))
     matrix = {}
-    if os.path.exists("/verif/twins/MATRIX.json"):
-        matrix = json.load(open("/verif/twins/MATRIX.json")).get("twins", {})
+    if os.path.exists(f"{HOME}/twins/MATRIX.json"):
+        matrix = json.load(open(f"{HOME}/twins/MATRIX.json")).get("twins", {})
     bad = 0
     for nm in names:
         sh(f"git checkout -q --detach {head} && git reset -q --hard && git clean -fdq", cwd=WT)
-        rc, o = sh(f"git apply /verif/twins/{nm}.diff", cwd=WT)
+        rc, o = sh(f"git apply {HOME}/twins/{nm}.diff", cwd=WT)
         if rc:
             print(nm, "DOES NOT APPLY", o.strip()[:160])
             matrix[nm] = {"applies": False}
@@ -58,7 +59,7 @@ def main():
             for x in l[:2]:
                 print("     ", x[:220])
     sh("git reset -q --hard && git clean -fdq", cwd=WT)
-    json.dump({"repo_head": head, "twins": matrix}, open("/verif/twins/MATRIX.json", "w"), indent=1, sort_keys=True)
+    json.dump({"repo_head": head, "twins": matrix}, open(f"{HOME}/twins/MATRIX.json", "w"), indent=1, sort_keys=True)
     return 1 if bad else 0
 
 
